@@ -271,9 +271,12 @@ impl LexiconReader {
         self.num_system = num;
     }
 
-    pub fn preload_pos(&mut self, grammar: &Grammar) {
+    /// Makes the first `num_pos` parts of speech of the grammar (the ones of the system dictionary)
+    /// known under their ids. Parts of speech beyond them were added when the dictionary was loaded
+    /// (by other user dictionaries or by plugins) and have no fixed id.
+    pub fn preload_pos(&mut self, grammar: &Grammar, num_pos: usize) {
         assert_eq!(self.pos.len(), 0);
-        for (i, pos) in grammar.pos_list.iter().enumerate() {
+        for (i, pos) in grammar.pos_list.iter().take(num_pos).enumerate() {
             let key = StrPosEntry::from_built_pos(pos);
             self.pos.insert(key, i as u16);
         }
